@@ -424,3 +424,216 @@ Qed.
 (* the histories printed by the harness only use matchers obeying the constant() contract *)
 Lemma harness_matchers_wf a b c d : tm_wf (md a) /\ tm_wf (md b) /\ tm_wf (md c) /\ gm_wf (gd d).
 Proof. repeat split; first [apply md_wf | apply gd_wf]. Qed.
+
+(* ================================================================================== *)
+(* the extended alphabet (Model.v section 13): bulk constructors, clones, failing        *)
+(* sources, term count                                                                   *)
+(* ================================================================================== *)
+(* on histories of base operations the extended machine is the base machine *)
+Theorem xrun_base pl I tc ops : forall s,
+  xrun_from pl I tc s (map XBase ops) = run_from pl I s ops.
+Proof.
+  induction ops as [|o ops IH]; intros s; [reflexivity|].
+  cbn [map xrun_from run_from xstep]. destruct (step pl I s o) as [s' r]. f_equal. apply IH.
+Qed.
+
+(* the bulk constructor is the fold of single inserts from the empty store: what follows a
+   successful from_quad_source(l) is what follows insert_all(l) on a new store, whatever the
+   store held before *)
+Theorem collect_is_insert_all pl I tc l xs s0 :
+  snd (api_insert_all I (i_init I) l 0) <> None ->
+  xrun_from pl I tc s0 (XCollect l false :: xs)
+  = OFlag true :: xrun_from pl I tc (fst (api_insert_all I (i_init I) l 0)) xs.
+Proof.
+  intros H. cbn [xrun_from xstep]. unfold api_collect.
+  destruct (api_insert_all I (i_init I) l 0) as [s' [n|]]; simpl in *; [reflexivity | congruence].
+Qed.
+Theorem collect_then_base pl I tc l ops s0 :
+  snd (api_insert_all I (i_init I) l 0) <> None ->
+  xrun_from pl I tc s0 (XCollect l false :: map XBase ops)
+  = OFlag true :: tl (run pl I (InsertAll l :: ops)).
+Proof.
+  intros H. rewrite collect_is_insert_all by exact H. rewrite xrun_base.
+  unfold run. cbn [run_from step]. destruct (api_insert_all I (i_init I) l 0) as [s' r]. reflexivity.
+Qed.
+(* a failed bulk constructor (full term index, or a failing source) leaves the current store alone *)
+Theorem collect_failure_keeps_store pl I tc l fail s0 :
+  snd (xstep pl I tc s0 (XCollect l fail)) <> OFlag true -> fst (xstep pl I tc s0 (XCollect l fail)) = s0.
+Proof.
+  cbn [xstep]. destruct (api_collect I l) as [s'|]; [|reflexivity].
+  destruct fail; simpl; [reflexivity | congruence].
+Qed.
+
+Definition xop_wf (o : xop) : Prop := match o with XBase o => op_wf o | _ => True end.
+
+Section XGeneric.
+Variable cap : option N.
+Variable I : impl.
+Variable ok : impl_ok cap I.
+Variable pl : pool.
+Variable tc : St I -> option N.
+Variable counted : bool.
+Hypothesis tc_ok : forall s, tc s = if counted then Some (N.of_nat (length (terms ok s))) else None.
+
+Theorem xstep_sim s sp o : R cap I ok s sp -> xop_wf o ->
+  R cap I ok (fst (xstep pl I tc s o)) (fst (xspec_step pl cap (i_isgraph I) counted sp o))
+  /\ out_sim (snd (xstep pl I tc s o)) (snd (xspec_step pl cap (i_isgraph I) counted sp o)).
+Proof.
+  intros HR Hw. destruct o as [o| |l fail|l|l|]; cbn [xstep xspec_step].
+  - apply step_sim; auto.
+  - split; [exact HR | reflexivity].
+  - unfold api_collect.
+    destruct (sim_insert_all cap I ok l (i_init I) (mkS [] []) 0 (R_init cap I ok)) as [H1 H2].
+    destruct (api_insert_all I (i_init I) l 0) as [s' r].
+    destruct (spec_insert_all cap (i_isgraph I) (mkS [] []) l 0) as [sp' r'].
+    simpl in H1, H2. subst r'. destruct r as [n|]; [destruct fail|]; simpl; split; auto; reflexivity.
+  - destruct (sim_insert_all cap I ok l s sp 0 HR) as [H1 H2].
+    destruct (api_insert_all I s l 0) as [s' r].
+    destruct (spec_insert_all cap (i_isgraph I) sp l 0) as [sp' r'].
+    simpl in H1, H2. subst r'. destruct r as [n|]; simpl; split; auto; reflexivity.
+  - destruct (sim_remove_all cap I ok l s sp 0 HR) as [H1 _]. simpl. split; [exact H1 | reflexivity].
+  - split; [exact HR|]. rewrite tc_ok. destruct HR as (_ & _ & HT). rewrite HT.
+    destruct counted; reflexivity.
+Qed.
+
+Theorem xrun_sim xs : forall s sp, R cap I ok s sp -> Forall xop_wf xs ->
+  Forall2 out_sim (xrun_from pl I tc s xs) (xspec_run_from pl cap (i_isgraph I) counted sp xs).
+Proof.
+  induction xs as [|o xs IH]; intros s sp HR Hw; cbn [xrun_from xspec_run_from]; [constructor|].
+  inversion Hw; subst.
+  destruct (xstep_sim s sp o HR H1) as [HR' Ho].
+  destruct (xstep pl I tc s o) as [s' r]. destruct (xspec_step pl cap (i_isgraph I) counted sp o) as [sp' r'].
+  simpl in *. constructor; auto.
+Qed.
+End XGeneric.
+
+(* the std sets: one step of the set store proper and of the ghosted one (from hset_ghost) *)
+Lemma hset_ghost_step isgraph pl o l ts :
+  step pl (hset_impl isgraph) l o
+  = (s_quads (fst (step pl (gset_impl isgraph) (mkS l ts) o)),
+     snd (step pl (gset_impl isgraph) (mkS l ts) o)).
+Proof.
+  pose proof (hset_ghost isgraph pl [o; All] l ts) as H. cbn [run_from] in H.
+  destruct (step pl (hset_impl isgraph) l o) as [l1 r1].
+  destruct (step pl (gset_impl isgraph) (mkS l ts) o) as [s1 r1'].
+  cbn [step] in H. inversion H. simpl. reflexivity.
+Qed.
+Lemma hset_ghost_insert_all g l0 l ts :
+  fst (api_insert_all (hset_impl g) l l0 0) = s_quads (fst (api_insert_all (gset_impl g) (mkS l ts) l0 0))
+  /\ (snd (api_insert_all (hset_impl g) l l0 0) = None
+      <-> snd (api_insert_all (gset_impl g) (mkS l ts) l0 0) = None).
+Proof.
+  pose proof (hset_ghost_step g [] (InsertAll l0) l ts) as H. cbn [step] in H.
+  destruct (api_insert_all (hset_impl g) l l0 0) as [a [n|]];
+    destruct (api_insert_all (gset_impl g) (mkS l ts) l0 0) as [b [m|]]; simpl in *;
+    inversion H; split; auto; split; congruence.
+Qed.
+Lemma hset_ghost_remove_all g l0 l ts :
+  fst (api_remove_all (hset_impl g) l l0 0) = s_quads (fst (api_remove_all (gset_impl g) (mkS l ts) l0 0)).
+Proof.
+  pose proof (hset_ghost_step g [] (RemoveAll l0) l ts) as H. cbn [step] in H.
+  destruct (api_remove_all (hset_impl g) l l0 0) as [a n];
+    destruct (api_remove_all (gset_impl g) (mkS l ts) l0 0) as [b m]; simpl in *.
+  inversion H. reflexivity.
+Qed.
+Lemma xhset_ghost g pl xs : forall l ts,
+  xrun_from pl (hset_impl g) (fun _ => None) l xs
+  = xrun_from pl (gset_impl g) (fun _ => None) (mkS l ts) xs.
+Proof.
+  induction xs as [|o xs IH]; intros l ts; [reflexivity|].
+  destruct o as [o| |l0 fail|l0|l0|]; cbn [xrun_from xstep].
+  - rewrite (hset_ghost_step g pl o l ts).
+    destruct (step pl (gset_impl g) (mkS l ts) o) as [[l1 ts1] r1]. simpl. f_equal. apply IH.
+  - f_equal. apply IH.
+  - unfold api_collect. cbn [hset_impl gset_impl i_init].
+    destruct (hset_ghost_insert_all g l0 [] []) as [E1 E2].
+    destruct (api_insert_all (hset_impl g) [] l0 0) as [a ra].
+    destruct (api_insert_all (gset_impl g) (mkS [] []) l0 0) as [[b tb] rb]. simpl in E1, E2. subst a.
+    destruct ra as [n|], rb as [m|].
+    + destruct fail; f_equal; apply IH.
+    + exfalso. destruct E2 as [_ E2]. specialize (E2 eq_refl). discriminate.
+    + exfalso. destruct E2 as [E2 _]. specialize (E2 eq_refl). discriminate.
+    + f_equal. apply IH.
+  - destruct (hset_ghost_insert_all g l0 l ts) as [E1 E2].
+    destruct (api_insert_all (hset_impl g) l l0 0) as [a ra].
+    destruct (api_insert_all (gset_impl g) (mkS l ts) l0 0) as [[b tb] rb]. simpl in E1, E2. subst a.
+    destruct ra as [n|], rb as [m|].
+    + f_equal. apply IH.
+    + exfalso. destruct E2 as [_ E2]. specialize (E2 eq_refl). discriminate.
+    + exfalso. destruct E2 as [E2 _]. specialize (E2 eq_refl). discriminate.
+    + f_equal. apply IH.
+  - rewrite (hset_ghost_remove_all g l0 l ts).
+    destruct (fst (api_remove_all (gset_impl g) (mkS l ts) l0 0)) as [b tb]. simpl. f_equal. apply IH.
+  - f_equal. apply IH.
+Qed.
+
+Definition cfg_counted (c : config) : bool :=
+  match c with LightGraph | FastGraph | LightDataset | FastDataset => true | _ => false end.
+
+(* THEOREM 2x: the refinement theorem over the extended alphabet *)
+Theorem xstore_refines_set c max pl xs :
+  set_config c = true -> Forall xop_wf xs ->
+  Forall2 out_sim (xrun pl c max xs) (xspec_run pl (cfg_cap c max) (cfg_isgraph c) (cfg_counted c) xs).
+Proof.
+  intros Hc Hw. unfold xrun, xspec_run.
+  destruct c; try discriminate; cbn [cfg_cap cfg_isgraph cfg_counted].
+  - apply (xrun_sim (Some max) (graph_impl false max) (graph_ok false max) pl _ true);
+      [intros s; reflexivity | apply R_init | exact Hw].
+  - apply (xrun_sim (Some max) (graph_impl true max) (graph_ok true max) pl _ true);
+      [intros s; reflexivity | apply R_init | exact Hw].
+  - apply (xrun_sim (Some max) (dataset_impl false max) (dataset_ok false max) pl _ true);
+      [intros s; reflexivity | apply R_init | exact Hw].
+  - apply (xrun_sim (Some max) (dataset_impl true max) (dataset_ok true max) pl _ true);
+      [intros s; reflexivity | apply R_init | exact Hw].
+  - cbn [impl_of term_count i_init hset_impl]. rewrite (xhset_ghost true pl xs [] []).
+    apply (xrun_sim None (gset_impl true) (gset_ok true) pl _ false);
+      [intros s; reflexivity | apply R_init | exact Hw].
+  - cbn [impl_of term_count i_init hset_impl]. rewrite (xhset_ghost false pl xs [] []).
+    apply (xrun_sim None (gset_impl false) (gset_ok false) pl _ false);
+      [intros s; reflexivity | apply R_init | exact Hw].
+Qed.
+
+(* ================================================================================== *)
+(* SimpleTermIndex used directly (Model.v section 14)                                    *)
+(* ================================================================================== *)
+Lemma ti_step_inv max ti o : TInv max ti -> TInv max (fst (ti_step max ti o)).
+Proof.
+  intros H. destruct o; cbn [ti_step fst]; auto.
+  destruct (ensure_index max ti t) as [ti' r] eqn:E.
+  destruct (ensure_index_spec max ti t ti' r H E) as [H' _]. exact H'.
+Qed.
+Lemma ti_fold_inv max ops : forall ti, TInv max ti ->
+  TInv max (fold_left (fun ti o => fst (ti_step max ti o)) ops ti).
+Proof. induction ops as [|o ops IH]; intros ti H; simpl; auto. apply IH, ti_step_inv, H. Qed.
+(* every reachable term index is a bijection between its terms and 0..len-1, and len <= MAX *)
+Theorem ti_reachable_inv max ops : TInv max (ti_final max ops).
+Proof. apply ti_fold_inv, tinv_empty. Qed.
+
+(* an index handed out by ensure_index is, from then on, the index of that term and of no other *)
+Theorem ti_ensure_roundtrip max ops t i :
+  snd (ti_step max (ti_final max ops) (TiEnsure t)) = Some i ->
+  let ti' := ti_final max (ops ++ [TiEnsure t]) in
+  get_index ti' t = Some i /\ get_term ti' i = t /\ i < tlen ti'.
+Proof.
+  intros H. unfold ti_final. rewrite fold_left_app. cbn [fold_left]. fold (ti_final max ops).
+  pose proof (ti_reachable_inv max ops) as HI. cbn [ti_step] in *.
+  destruct (ensure_index max (ti_final max ops) t) as [ti' r] eqn:E. simpl in H. subst r.
+  destruct (ensure_index_spec max _ t ti' (Some i) HI E) as (HI' & _ & _ & _ & Hg & _). simpl.
+  split; [exact Hg|]. destruct HI' as [HB _]. apply HB in Hg. tauto.
+Qed.
+
+(* the terms held by the index are those the specification's [intern] holds, in the same order *)
+Lemma ti_spec_fold max ops : forall ti, TInv max ti ->
+  i2t (fold_left (fun ti o => fst (ti_step max ti o)) ops ti) = ti_spec max (i2t ti) ops.
+Proof.
+  induction ops as [|o ops IH]; intros ti H; [reflexivity|]. cbn [fold_left].
+  rewrite IH by (apply ti_step_inv; exact H).
+  destruct o; cbn [ti_step fst ti_spec]; try reflexivity.
+  destruct (ensure_index max ti t) as [ti' r] eqn:E.
+  destruct (ensure_index_spec max ti t ti' r H E) as (_ & _ & _ & _ & Hr). simpl.
+  destruct r as [i|].
+  - destruct Hr as [_ ->]. reflexivity.
+  - destruct Hr as [-> ->]. reflexivity.
+Qed.
+Theorem ti_is_intern max ops : i2t (ti_final max ops) = ti_spec max [] ops.
+Proof. apply (ti_spec_fold max ops ti_empty), tinv_empty. Qed.
